@@ -3,7 +3,7 @@ use std::collections::{HashMap, HashSet};
 use crate::go::goast as ast;
 
 // Public entry: eliminate unused local variables from Go AST while
-// preserving side-effecting expressions (primarily calls).
+// preserving side-effecting expressions (calls and operations that can panic).
 pub fn eliminate_dead_vars(file: ast::File) -> ast::File {
     let toplevels = file.toplevels.into_iter().map(dce_item).collect();
     let file = ast::File { toplevels };
@@ -640,14 +640,22 @@ fn expr_has_side_effects(e: &ast::Expr) -> bool {
                     .unwrap_or(false)
         }
         ast::Expr::FieldAccess { obj, .. } => expr_has_side_effects(obj),
-        ast::Expr::Index { array, index, .. } => {
-            expr_has_side_effects(array) || expr_has_side_effects(index)
-        }
+        // Operations that can panic at run time are observable as well: an index out of
+        // range, an integer division by zero, a nil dereference, a failed type assertion.
+        ast::Expr::Index { .. } => true,
+        ast::Expr::UnaryOp {
+            op: ast::GoUnaryOp::Deref,
+            ..
+        } => true,
         ast::Expr::UnaryOp { expr, .. } => expr_has_side_effects(expr),
+        ast::Expr::BinaryOp {
+            op: ast::GoBinaryOp::Div,
+            ..
+        } => true,
         ast::Expr::BinaryOp { lhs, rhs, .. } => {
             expr_has_side_effects(lhs) || expr_has_side_effects(rhs)
         }
-        ast::Expr::Cast { expr, .. } => expr_has_side_effects(expr),
+        ast::Expr::Cast { .. } => true,
         ast::Expr::StructLiteral { fields, .. } => {
             fields.iter().any(|(_, e)| expr_has_side_effects(e))
         }
